@@ -67,7 +67,8 @@ type TreeShapeListener struct {
 	rest_queryparams_len  []int
 	rest_urlparams_len    []int
 	http_path_query_param string
-	stmt_scope            []interface{} // Endpoint, if, if_else, loop
+	stmt_scope            []interface{}     // Endpoint, if, if_else, loop
+	stmt_scope_last       []*sysl.Statement // last statement of each scope at the time it was pushed
 	expr_stack            []*sysl.Expr
 	opmap                 map[string]sysl.Expr_BinExpr_Op
 	currentMultiLineAnno  []string
@@ -1598,17 +1599,21 @@ func (s *TreeShapeListener) TopExpr() *sysl.Expr {
 
 func (s *TreeShapeListener) pushScope(scope interface{}) {
 	s.stmt_scope = append(s.stmt_scope, scope)
+	s.stmt_scope_last = append(s.stmt_scope_last, s.lastStatement())
 }
 
 func (s *TreeShapeListener) popScope() {
 	top := s.lastStatement()
-	if top != nil {
+	// A scope that was re-opened (an endpoint declared again) without adding a statement must not
+	// move the end of a statement that an earlier declaration put there.
+	if top != nil && top != s.stmt_scope_last[len(s.stmt_scope_last)-1] {
 		top.SourceContext.End = s.lastEnd //nolint:staticcheck
 		top.SourceContexts[len(top.SourceContexts)-1].End = s.lastEnd
 	}
 
 	l := len(s.stmt_scope) - 1
 	s.stmt_scope = s.stmt_scope[:l]
+	s.stmt_scope_last = s.stmt_scope_last[:l]
 }
 
 func (s *TreeShapeListener) peekScope() interface{} {
